@@ -16,6 +16,9 @@ import time
 from collections import Counter
 
 VERIF = os.path.dirname(os.path.dirname(os.path.abspath(__file__)))
+# where evidence and replay files go; a sensitivity run against a scratch copy
+# of the repository sets VERIF_OUT so that it never overwrites real evidence
+OUT = os.environ.get('VERIF_OUT', VERIF)
 PY = sys.executable
 DEFAULT_SEED = 20260926
 WORKERS = int(os.environ.get('VERIF_WORKERS', '16'))
@@ -90,6 +93,10 @@ def gen_case(prop, seed, run):
 MATRIX_BASE = 10 ** 7
 
 
+_STOP = multiprocessing.get_context('fork').Event()
+EARLY_STOP = bool(os.environ.get('VERIF_EARLY_STOP'))
+
+
 def _summ(prop, seed, run, want_case=False):
     from sim import execu
     try:
@@ -124,22 +131,88 @@ def _summ(prop, seed, run, want_case=False):
     return out
 
 
+def run_isolated(fn, args, timeout=120):
+    """Run fn(*args) in a forked child and return its (picklable) result.
+
+    One simulated run = one process image: whatever process-global state the
+    library keeps (module-level caches, mutated defaults) starts out pristine
+    in every run, so a run's outcome is a function of its case alone and a
+    replay in a fresh interpreter sees exactly what the batch saw."""
+    import pickle
+    import select
+    r, w = os.pipe()
+    pid = os.fork()
+    if pid == 0:
+        code = 0
+        try:
+            os.close(r)
+            try:
+                res = fn(*args)
+            except BaseException as e:   # noqa
+                import traceback
+                res = {'run': args[2] if len(args) > 2 else -1,
+                       'harness_error': 'child: %s: %s' %
+                       (type(e).__name__, e),
+                       'tb': traceback.format_exc(limit=10)}
+            data = pickle.dumps(res, pickle.HIGHEST_PROTOCOL)
+            with os.fdopen(w, 'wb') as f:
+                f.write(data)
+        except BaseException:   # noqa
+            code = 1
+        finally:
+            os._exit(code)
+    os.close(w)
+    chunks = []
+    deadline = time.time() + timeout
+    timed_out = False
+    with os.fdopen(r, 'rb') as f:
+        while True:
+            left = deadline - time.time()
+            if left <= 0:
+                timed_out = True
+                break
+            ready, _, _ = select.select([f], [], [], min(left, 5))
+            if ready:
+                b = f.read(1 << 20)
+                if not b:
+                    break
+                chunks.append(b)
+    if timed_out:
+        try:
+            os.kill(pid, signal.SIGKILL)
+        except OSError:
+            pass
+    os.waitpid(pid, 0)
+    if timed_out:
+        raise _RunTimeout()
+    try:
+        return pickle.loads(b''.join(chunks))
+    except Exception as e:   # noqa
+        return {'run': args[2] if len(args) > 2 else -1,
+                'harness_error': 'child died without a result (%r)' % (e,)}
+
+
 def _worker(args):
     prop, seed, runs, deadline = args
     faulthandler.enable()
+    from sim.env import install
+    install()          # import the library once; children inherit it unused
+    from sim import execu, gen, genmatrix, genreject, known, minimise, \
+        model, pipeline, reject, world   # noqa: F401 (warm the imports)
+    import gc
+    gc.collect()
+    gc.freeze()        # fewer copy-on-write faults in the forked children
     out = []
     for r in runs:
-        if time.time() > deadline:
+        if time.time() > deadline or _STOP.is_set():
             break
-        old = signal.signal(signal.SIGALRM, _alarm)
-        signal.alarm(120)
         try:
-            out.append(_summ(prop, seed, r))
+            out.append(run_isolated(_summ, (prop, seed, r)))
+            if EARLY_STOP and any(prop in v['props']
+                                  for v in out[-1].get('viol', [])):
+                _STOP.set()
         except _RunTimeout:
             out.append({'run': r, 'timeout': True})
-        finally:
-            signal.alarm(0)
-            signal.signal(signal.SIGALRM, old)
     return out
 
 
@@ -204,8 +277,13 @@ def alt_hash_digests(prop, seed, runs, hashseed):
 
 
 def print_digests(prop, seed, runs):
+    from sim.env import install
+    install()
     for r in runs:
-        s = _summ(prop, seed, r)
+        try:
+            s = run_isolated(_summ, (prop, seed, r))
+        except _RunTimeout:
+            s = {}
         if 'trace_digest' in s:
             print('DIGEST %d %s %s' % (r, s['trace_digest'],
                                        s['result_digest']))
@@ -358,7 +436,7 @@ def check(prop, tier, seed):
     reported = []
     known_hits = Counter()
     unconfirmed = []
-    os.makedirs(os.path.join(VERIF, 'replays', prop), exist_ok=True)
+    os.makedirs(os.path.join(OUT, 'replays', prop), exist_ok=True)
     n_reported = 0
     for sig in sorted(by_sig):
         items = by_sig[sig]
@@ -391,7 +469,7 @@ def check(prop, tier, seed):
         if case is None:
             # hash-seed violation: replay file = the generated case + note
             case = gen_case(prop, seed, src['run'])
-            path = os.path.join(VERIF, 'replays', prop, 'hashseed-%d-%d.json'
+            path = os.path.join(OUT, 'replays', prop, 'hashseed-%d-%d.json'
                                 % (seed, src['run']))
             with open(path, 'w') as f:
                 json.dump({'property': prop, 'signature': sig,
@@ -413,7 +491,7 @@ def check(prop, tier, seed):
             unconfirmed.append(sig)
             continue
         tag = hashlib.sha1(sig.encode('utf-8')).hexdigest()[:10]
-        path = os.path.join(VERIF, 'replays', prop, '%s-%d.json' % (tag, seed))
+        path = os.path.join(OUT, 'replays', prop, '%s-%d.json' % (tag, seed))
         vrec = dict(vv[0])
         vrec['details'] = dict((k, x) for k, x in vrec['details'].items())
         with open(path, 'w') as f:
@@ -437,8 +515,8 @@ def check(prop, tier, seed):
                         known_hits, harness_errors, unconfirmed, det_runs,
                         det_bad, alt_runs, alt, alt_trace_bad, alt_result_bad,
                         wall, t_batch, extra)
-    os.makedirs(os.path.join(VERIF, 'evidence'), exist_ok=True)
-    with open(os.path.join(VERIF, 'evidence', prop + '.json'), 'w') as f:
+    os.makedirs(os.path.join(OUT, 'evidence'), exist_ok=True)
+    with open(os.path.join(OUT, 'evidence', prop + '.json'), 'w') as f:
         json.dump(ev, f, indent=1, default=str)
     # ---- verdict -----------------------------------------------------------
     for kid, n in sorted(known_hits.items()):
